@@ -23,15 +23,15 @@ CONTRACTS["programs:Program.get_prop_covered"] = dict(
     stubs=_sat_stubs,
     requires=["capacity[0] >= 0", "eligible[0] >= 0", "SAT[0] > 0"],
     ensures=[
-        ("C11.in_unit_interval", "result[0] >= 0 and result[0] <= 1"),
-        ("C11.linear_when_unconstrained_below_one", "implies(not HAS_SAT and eligible[0] > capacity[0], result[0] * eligible[0] == capacity[0])"),
-        ("C11.full_when_capacity_covers_everyone", "implies(not HAS_SAT and eligible[0] <= capacity[0], result[0] == 1)"),
-        ("C11.bounded_by_saturation", "implies(HAS_SAT, result[0] <= SAT[0])"),
-        ("C11.nobody_eligible_gives_saturation_or_one", "implies(eligible[0] == 0, result[0] == (min(SAT[0], 1) if HAS_SAT else 1))"),
+        ("C11+C13.in_unit_interval", "result[0] >= 0 and result[0] <= 1"),
+        ("C11+C13.linear_when_unconstrained_below_one", "implies(not HAS_SAT and eligible[0] > capacity[0], result[0] * eligible[0] == capacity[0])"),
+        ("C11+C13.full_when_capacity_covers_everyone", "implies(not HAS_SAT and eligible[0] <= capacity[0], result[0] == 1)"),
+        ("C11+C13.bounded_by_saturation", "implies(HAS_SAT, result[0] <= SAT[0])"),
+        ("C11+C13.nobody_eligible_gives_saturation_or_one", "implies(eligible[0] == 0, result[0] == (min(SAT[0], 1) if HAS_SAT else 1))"),
         ("C11.never_more_people_than_capacity", "implies(not HAS_SAT and eligible[0] > 0, result[0] * eligible[0] <= capacity[0])"),   # with saturation: a*tanh(x/a) <= x, beyond the exp axioms (not decided)
     ],
     relational=dict(vary={"capacity": "arr1:1"}, requires=["capacity_2[0] >= 0", "capacity[0] <= capacity_2[0]"]),
-    defined_props=["C11"],
+    defined_props=["C11", "C13"],
 )
 CONTRACTS["programs:Program.get_prop_covered"]["ensures"].append(("C11.monotone_in_capacity", "result[0] <= result_2[0]"))
 
